@@ -175,35 +175,6 @@ fn c08_canary_itf8_max_4_bytes() {
 }
 
 // ------------------------------------------------------------------------------------------------
-// C15: container landmarks (file-supplied) used as slice bounds
-
-// @verif prop=C15 id=O15.cram.landmarks tier=quick unwind=4 bound="Container with an 8-byte body and ARBITRARY header landmarks (0..=2 entries, any usize): compression_header() and slices() return Ok/Err, never panic on out-of-range landmarks" fns="io::reader::container::Container::compression_header,Container::slices"
-#[kani::proof]
-#[kani::unwind(4)]
-fn c15_container_landmarks_out_of_range() {
-    use crate::io::reader::container::Container;
-    let (a, b): (usize, usize) = kani::any();
-    let n: u8 = kani::any();
-    let mut c = Container::default();
-    c.src = vec![0u8; 8];
-    c.header.landmarks = match n {
-        0 => vec![],
-        1 => vec![a],
-        _ => vec![a, b],
-    };
-    let r = c.compression_header();
-    std::mem::forget(r);
-    let mut it = c.slices();
-    let s0 = it.next();
-    std::mem::forget(s0);
-    let s1 = it.next();
-    std::mem::forget(s1);
-    kani::cover!(n == 2 && a > 8);
-    std::mem::forget(it);
-    std::mem::forget(c);
-}
-
-// ------------------------------------------------------------------------------------------------
 // C19: reference sequence context fold (public API of container::ReferenceSequenceContext)
 
 // @verif prop=C19 id=O19.2 tier=quick unwind=4 bound="ARBITRARY context Some(id,s,e)/None/Many + one record (any optional id/start/end): one update step vs the spec fold (same reference -> min start/max end; different or unmapped -> Many; None stays None only for unplaced)" fns="ReferenceSequenceContext::update,Context::alignment_span"
